@@ -281,6 +281,59 @@ command ClearNote {
     recall reject() {}
 }
 
+command ForceCounter {
+    attributes { priority: 70 }
+    fields { name int, value int }
+    seal { return seal_command(payload) }
+    open { return open_envelope(payload, envelope) }
+    policy {
+        let author_id = envelope::author_id(envelope)
+        let cur = query Counter[name: this.name]
+        match cur {
+            Some(c) => {
+                finish {
+                    update Counter[name: this.name]=>{value: c.value} to {value: this.value}
+                    emit CounterIs{name: this.name, value: this.value, by: author_id}
+                }
+            }
+            None => {
+                finish {
+                    create Counter[name: this.name]=>{value: this.value}
+                    emit CounterIs{name: this.name, value: this.value, by: author_id}
+                }
+            }
+        }
+    }
+}
+
+command SealCounter {
+    attributes { finalize: true }
+    fields { name int, value int }
+    seal { return seal_command(payload) }
+    open { return open_envelope(payload, envelope) }
+    policy {
+        let author_id = envelope::author_id(envelope)
+        let owner = query Owner[] or recall reject()
+        check author_id == owner.device_id else recall reject()
+        let cur = query Counter[name: this.name]
+        match cur {
+            Some(c) => {
+                finish {
+                    update Counter[name: this.name]=>{value: c.value} to {value: this.value}
+                    emit CounterIs{name: this.name, value: this.value, by: author_id}
+                }
+            }
+            None => {
+                finish {
+                    create Counter[name: this.name]=>{value: this.value}
+                    emit CounterIs{name: this.name, value: this.value, by: author_id}
+                }
+            }
+        }
+    }
+    recall reject() {}
+}
+
 action init(owner_keys struct PublicKeys, nonce int) {
     publish Init { owner_keys: owner_keys, nonce: nonce }
 }
@@ -293,6 +346,8 @@ action del_counter(name int) { publish DelCounter { name: name } }
 action zero_counter(name int) { publish ZeroCounter { name: name } }
 action post_note(seq int, text string) { publish PostNote { seq: seq, text: text } }
 action clear_note(seq int, text string) { publish ClearNote { seq: seq, text: text } }
+action force_counter(name int, value int) { publish ForceCounter { name: name, value: value } }
+action seal_counter(name int, value int) { publish SealCounter { name: name, value: value } }
 action set_then_add(name int, v1 int, v2 int, seq int, text string) {
     publish SetCounter { name: name, value: v1 }
     publish AddCounter { name: name, value: v2 }
@@ -466,6 +521,8 @@ pub struct Snap {
     /// id -> (max_cut, data hash, parents)
     pub cmds: BTreeMap<[u8; 32], (u64, u64, Vec<[u8; 32]>)>,
     pub heads: BTreeSet<[u8; 32]>,
+    /// id -> (priority class Merge=0 < Basic=1 < Finalize=2 < Init=3, basic value)
+    pub prios: BTreeMap<[u8; 32], (u8, u32)>,
     pub facts: Vec<Vec<(Vec<Vec<u8>>, Vec<u8>)>>,
 }
 
@@ -506,6 +563,13 @@ pub fn snapshot(cs: &mut Client, graph: GraphId) -> Result<Snap, String> {
                 Prior::Merge(a, b) => vec![idb(a.id), idb(b.id)],
             };
             let cmcu: u64 = format!("{cmc}").parse().unwrap_or(u64::MAX);
+            let pr = match c.priority() {
+                Priority::Merge => (0u8, 0u32),
+                Priority::Basic(n) => (1, n),
+                Priority::Finalize => (2, 0),
+                Priority::Init => (3, 0),
+            };
+            snap.prios.insert(idb(c.id()), pr);
             snap.cmds.insert(idb(c.id()), (cmcu, hash_of(&c.bytes()), parents));
         }
         match seg.prior() {
@@ -529,6 +593,17 @@ pub fn snapshot(cs: &mut Client, graph: GraphId) -> Result<Snap, String> {
     Ok(snap)
 }
 
+
+/// `random_action` plus the priority-70 and (for the owner only) finalize commands.
+pub fn random_action_ext(rng: &mut Rng, is_owner: bool) -> (&'static str, Vec<Value>) {
+    let name = Value::Int(rng.below(4) as i64);
+    let val = Value::Int(rng.range(0, 40) as i64 - 10);
+    match rng.below(100) {
+        0..=9 => ("force_counter", vec![name, val]),
+        10..=14 if is_owner => ("seal_counter", vec![name, val]),
+        _ => random_action(rng),
+    }
+}
 
 pub fn random_action(rng: &mut Rng) -> (&'static str, Vec<Value>) {
     let name = Value::Int(rng.below(4) as i64);
